@@ -1,4 +1,5 @@
 """C05 fn/defn bind arguments exactly like the equivalent Python def."""
+from hv import core  # noqa: E402
 import ast
 import itertools
 import multiprocessing as mp
@@ -180,7 +181,7 @@ def run(chk):
     tasks = [("ll", x) for x in lls] + [("call", x) for x in calls]
     import gc; gc.collect(); gc.freeze()  # forked workers then touch (copy) far fewer pages
     with mp.get_context("fork").Pool(chk.jobs) as pool:
-        res = pool.map(_w, tasks, chunksize=64)
+        res = core.pmap(pool, _w, tasks, chunksize=64)
     seen = set()
     for kind, desc, ok, detail in res:
         name = f"{'lambda-list' if kind == 'll' else 'call'}/{desc}"
